@@ -1,25 +1,39 @@
 #!/bin/bash
-# Self-test: apply each seeded change under /verif/seeded/<id>/patch.diff to /repo, run the check of the property it
-# breaks (quick, then thorough if quick misses it), record the outcome, and undo the change straight afterwards.
-# Not part of any MANIFEST command. Usage: tools/seeded.sh [id ...]
+# Self-test: apply each seeded change under /verif/seeded/<id>/patch.diff to a scratch worktree of /repo's HEAD (outside
+# /repo and /verif, removed at the end), run the check of the property it breaks against that worktree (quick, then
+# thorough if quick misses it) and record the outcome in /verif/seeded/RESULTS.txt. Not part of any MANIFEST command.
+# Usage: tools/seeded.sh [id ...]      (the same can be done on /repo itself: git -C /repo apply <patch>; run the
+# check; git -C /repo checkout -- .)
 cd /verif
 export GOFLAGS=-mod=mod GOPROXY=off GOSUMDB=off GOTOOLCHAIN=local
 ids="$@"
-[ -z "$ids" ] && ids=$(ls seeded)
+[ -z "$ids" ] && ids=$(ls seeded | grep -v RESULTS)
+wt=$(mktemp -d /tmp/seedrepo.XXXX); rmdir $wt
+git -C /repo worktree add -q --detach $wt HEAD || exit 2
+scratch=$(mktemp -d /tmp/seedout.XXXX)
+trap 'git -C /repo worktree remove --force $wt; rm -rf $scratch' EXIT
 for id in $ids; do
   d=seeded/$id
   [ -f $d/patch.diff ] || continue
   prop=$(python3 -c "import json;print(json.load(open('$d/meta.json'))['property'])")
-  if [ -n "$(git -C /repo status --porcelain)" ]; then echo "/repo not clean"; exit 2; fi
-  git -C /repo apply /verif/$d/patch.diff || { echo "$id: patch does not apply"; continue; }
+  git -C $wt checkout -q -- . ; git -C $wt clean -fdq
+  git -C $wt apply /verif/$d/patch.diff || { echo "$id: patch does not apply"; continue; }
   res=missed
   for tier in quick thorough; do
-    out=$(timeout 3600 ./bin/gosym check --out /tmp/seeded-scratch --property $prop --tier $tier 2>&1)
+    t0=$(date +%s)
+    out=$(timeout 5400 ./bin/gosym check --repo $wt --out $scratch --property $prop --tier $tier 2>&1)
     rc=$?
-    if [ $rc -eq 1 ]; then res="caught-$tier: $(echo "$out" | grep 'violated:' | head -1 | sed 's/cfg=.*//')"; break; fi
+    t1=$(date +%s)
+    if [ $rc -eq 1 ]; then res="caught-$tier ($((t1-t0))s): $(echo "$out" | grep 'violated:' | head -1 | sed 's/cfg=.*//; s/^ *violated: //')"; break; fi
     if [ $rc -eq 2 ]; then res="inconclusive-$tier: $(echo "$out" | grep 'UNCONFIRMED\|PROBLEM' | head -1 | cut -c1-200)"; fi
   done
-  git -C /repo checkout -- .
   echo "$id ($prop): $res"
+  python3 - "$id" "$res" <<'PY'
+import sys,os
+p='/verif/seeded/RESULTS.txt'
+lines=[l for l in open(p)] if os.path.exists(p) else []
+lines=[l for l in lines if not l.startswith(sys.argv[1]+' ')]
+lines.append(f"{sys.argv[1]} {sys.argv[2]}\n")
+open(p,'w').write(''.join(sorted(lines)))
+PY
 done
-rm -rf /tmp/seeded-scratch
